@@ -54,6 +54,8 @@ Func(name, ins, out, cl, er) ==
 FuncIn(name, pkg, ins, out, cl, er) == [Func(name, ins, out, cl, er) EXCEPT !.pkg = pkg]
 \* wire.Struct(new(s), sel...)  or wire.Struct(new(s), "*") when all
 StructL(name, s, sel, all) == [L0 EXCEPT !.k = "struct", !.name = name, !.s = s, !.sel = sel, !.all = all]
+\* deprecated struct-literal provider  S{}  passed as an item: all fields, tags ignored
+StructLitL(name, s) == [L0 EXCEPT !.k = "structlit", !.name = name, !.s = s]
 \* wire.Value(expr) of type out
 ValueL(name, out) == [L0 EXCEPT !.k = "value", !.name = name, !.out = out]
 \* wire.InterfaceValue(new(iface), expr of type conc)
